@@ -99,7 +99,38 @@ Section ReverseLaws.
     - apply (N b a w). apply reverse_edge; assumption.
     - apply (N b a w). apply reverse_edge; assumption.
   Qed.
+
+  (* a walk followed by one more edge is a nonempty walk *)
+  Lemma walk_then_edge_reach1 (g : graph) x y z p w w' :
+    walk g x y p w -> edge g y z w' -> vertex g z -> reach1 g x z.
+  Proof.
+    intros Wk. revert z w'. induction Wk as [a Va | a b c p w1 w2 E Wk IH]; intros z w' E2 Vz.
+    - exists z, w', [z], 0. split; [exact E2 | apply walk_nil; exact Vz].
+    - destruct (IH z w' E2 Vz) as [c' [w3 [q [w4 [E3 Wq]]]]].
+      exists b, w1, (b :: q), (w3 + w4). split; [exact E|].
+      eapply walk_cons; [exact E3 | exact Wq].
+  Qed.
+
+  Lemma reverse_reach1 (g : graph) a b :
+    wf_graph g -> reach1 g a b -> reach1 (g_reverse g) b a.
+  Proof.
+    intros W [c [w [p [w2 [E Wk]]]]].
+    eapply walk_then_edge_reach1.
+    - apply reverse_walk; [exact W | exact Wk].
+    - apply reverse_edge; [exact W | exact E].
+    - apply reverse_vertices. exact (proj1 (wf_closed W _ _ E)).
+  Qed.
+
+  (* the view of an acyclic graph is acyclic, and conversely *)
+  Theorem reverse_acyclic (g : graph) : wf_graph g -> (acyclic g <-> acyclic (g_reverse g)).
+  Proof.
+    intros W. unfold acyclic. split; intros A a R.
+    - apply (A a). rewrite <- (reverse_involutive g).
+      apply reverse_reach1; [apply reverse_wf; exact W | exact R].
+    - apply (A a). apply reverse_reach1; assumption.
+  Qed.
 End ReverseLaws.
 
 Print Assumptions reverse_reach.
 Print Assumptions reverse_min_dist.
+Print Assumptions reverse_acyclic.
